@@ -52,6 +52,33 @@ fn view(m: &Melda) -> Value {
 
 /// prepared states: returns (target replica, other replica)
 fn prepare(state: &str) -> (Melda, Melda) {
+    // cache capacities are read from the environment when a replica is constructed
+    std::env::set_var("MELDA_ARRAYDESCRIPTORS_CACHE_CAP", if state == "multi-array-behind" { "3" } else { "16" });
+    if state == "multi-array-behind" {
+        // three flattened arrays; the reader has cached version 2 of each (cache full), then receives
+        // versions 3 and 4 (edit scripts): reconstruction walks back to the cached ancestor
+        let ver = |n: u32| {
+            let el = |p: &str, k: u32| json!({"_id": format!("{}{}", p, k), "v": 1});
+            let mk = |p: &str| -> Vec<Value> { (0..=n).map(|k| el(p, k)).collect() };
+            json!({"l♭": mk("l"), "m♭": mk("m"), "k♭": mk("k")})
+        };
+        let a = new_replica();
+        let mut b = new_replica();
+        a.update(obj(ver(1))).unwrap();
+        a.commit(None).unwrap();
+        a.update(obj(ver(2))).unwrap();
+        a.commit(None).unwrap();
+        b.meld(&a).unwrap();
+        b.refresh().unwrap();
+        b.read(None).unwrap();
+        a.update(obj(ver(3))).unwrap();
+        a.commit(None).unwrap();
+        a.update(obj(ver(4))).unwrap();
+        a.commit(None).unwrap();
+        b.meld(&a).unwrap();
+        b.refresh().unwrap();
+        return (b, a);
+    }
     let mut a = new_replica();
     let mut b = new_replica();
     let base = json!({"l♭":[x(), y()]});
@@ -157,6 +184,8 @@ pub fn body_list(thorough: bool) -> Vec<(&'static str, &'static str)> {
         ("array-conflict-pending", "refresh"),
         ("dropped-array", "read"),
         ("array-conflict", "queries"),
+        ("multi-array-behind", "read"),
+        ("multi-array-behind", "update"),
     ];
     if thorough {
         v.extend(vec![
@@ -265,7 +294,13 @@ pub fn main() {
     let max_exec = if thorough { 400_000 } else { 20_000 };
     let mut failures = vec![];
     let mut total_exec = 0usize;
+    let only: Option<String> = args.iter().position(|a| a == "--only").map(|i| args[i + 1].clone());
     for (state, op) in body_list(thorough) {
+        if let Some(o) = &only {
+            if !state.starts_with(o.as_str()) {
+                continue;
+            }
+        }
         for &(workers, bound, policy) in &configs {
             RW_POLICY.store(policy, Ordering::SeqCst);
             let expected = std::sync::Arc::new(StdMutex::new(None));
